@@ -78,6 +78,31 @@ mod proofs {
         core::mem::forget(r);
     }
 
+    #[allow(unused_imports, clippy::all)]
+    mod mcp {
+        use chrono::Datelike;
+        include!(concat!(env!("OUT_DIR"), "/mcp_extract.rs"));
+    }
+
+    /// K4: the tax-year derivation that the MCP tool `explain_matching` spells out inline (copied from the current
+    /// source by build.rs, whatever its syntax) equals the statute on EVERY calendar date with a 4-digit year.
+    #[kani::proof]
+    fn k4_mcp_explain_year_all_dates() {
+        let y: i32 = kani::any();
+        let m: u32 = kani::any();
+        let d: u32 = kani::any();
+        kani::assume((0..=9999).contains(&y) && (1..=12).contains(&m) && (1..=31).contains(&d));
+        if let Some(date) = NaiveDate::from_ymd_opt(y, m, d) {
+            let got = mcp::mcp_year(date);
+            if let Some(g) = got {
+                assert!(g == spec_year(y, m, d));
+            }
+            // vacuity witnesses: the statement was found, and both sides of the boundary are reached
+            kani::cover!(got.is_some() && m == 4 && d == 5);
+            kani::cover!(got.is_some() && m == 4 && d == 6);
+        }
+    }
+
     /// K3: month/day accessors agree with construction (anchors the spec's use of (y, m, d))
     #[kani::proof]
     fn k3_chrono_fields() {
